@@ -221,6 +221,10 @@ class Database(object):
         return self[dbref.collection].find_one({'_id': dbref.id})
 
     def command(self, command, **unused_kwargs):
+        for feature in ('session', 'collation', 'array_filters', 'let'):
+            if unused_kwargs.get(feature):
+                raise_not_implemented(
+                    feature, 'Mongomock does not handle the %s option yet' % feature)
         if isinstance(command, str):
             command = {command: 1}
         if 'ping' in command:
